@@ -502,8 +502,11 @@ class SQLiteOrchestrator(BaseOrchestrator):
             )
             to_purge = [row[0] for row in cursor.fetchall()]
             cursor.close()
+            # release_waiters writes through its own connection: do it for every id before the
+            # first DELETE opens this connection's write transaction (it would wait for it)
             for invocation_id in to_purge:
                 self.release_waiters(invocation_id)
+            for invocation_id in to_purge:
                 conn.execute(
                     f"DELETE FROM {self.tables.INVOCATIONS} WHERE invocation_id = ?",
                     (invocation_id,),
